@@ -57,6 +57,8 @@ enum ConnCmd {
     Graceful,
     /// stop driving the connection altogether (nothing read, nothing written), socket kept open
     Freeze,
+    /// GOAWAY(INTERNAL_ERROR) now; open streams are ended with it
+    Abrupt,
 }
 
 /// Hold everything a stream owns, silently, until the collector shuts down.
@@ -129,6 +131,7 @@ async fn serve_conn(inner: Arc<Inner>, sock: Io, conn_id: u64) {
             cmd = cmd_rx.recv() => match cmd {
                 Some(ConnCmd::Kill) => return,
                 Some(ConnCmd::Graceful) => conn.graceful_shutdown(),
+                Some(ConnCmd::Abrupt) => conn.abrupt_shutdown(h2::Reason::INTERNAL_ERROR),
                 Some(ConnCmd::Freeze) => {
                     // `conn` (and with it the socket) stays alive, undriven, until the runtime goes away
                     std::future::pending::<()>().await;
@@ -416,6 +419,30 @@ async fn serve_stream(
                     send.send_reset(h2::Reason::CANCEL);
                 }
                 Err(_) => {}
+            }
+            Outcome::Dropped
+        }
+        Decision::AbortAfterHeaders { how } | Decision::AbortMidBody { how } => {
+            // no OK trailers will ever be sent: not acknowledged, whatever the client makes of it
+            plan(Outcome::Dropped);
+            if let Ok(mut send) = respond.send_response(grpc_headers(200), false) {
+                if matches!(decision, Decision::AbortMidBody { .. }) {
+                    let _ = send.send_data(Bytes::from_static(&[0, 0, 0]), false);
+                }
+                // let the HEADERS (and DATA) reach the client before the abort does
+                tokio::time::sleep(Duration::from_millis(20)).await;
+                match how {
+                    crate::Abort::RstStream => send.send_reset(h2::Reason::INTERNAL_ERROR),
+                    crate::Abort::Goaway => {
+                        let _ = cmd.send(ConnCmd::Abrupt);
+                        // keep the stream handle until the GOAWAY is out
+                        tokio::time::sleep(Duration::from_millis(20)).await;
+                    }
+                    crate::Abort::DropConnection => {
+                        let _ = cmd.send(ConnCmd::Kill);
+                        tokio::time::sleep(Duration::from_millis(20)).await;
+                    }
+                }
             }
             Outcome::Dropped
         }
